@@ -63,6 +63,22 @@ C18Ops == {"ht","hts","tbc"}
 C19Ops == {"title","icon"}
 C20Ops == {"so","si","charset"}
 
+\* operations whose delivery through the parser (operation, parameters, order) belongs to a property
+WirePropIds == {"C04","C05","C06","C07","C08","C12","C13","C14","C15","C18","C20"}
+WireOps(id) ==
+  CASE id = "C04" -> {"draw"}
+    [] id = "C05" -> C05Ops
+    [] id = "C06" -> C06Ops
+    [] id = "C07" -> C07Ops
+    [] id = "C08" -> C08Ops
+    [] id = "C12" -> C12Ops
+    [] id = "C13" -> C13Ops
+    [] id = "C14" -> C14Ops
+    [] id = "C15" -> C15Ops
+    [] id = "C18" -> C18Ops
+    [] id = "C20" -> C20Ops
+    [] OTHER -> {}
+
 InScope(id, pre, ev) ==
   CASE id = "C04" -> ev.op = "draw" /\ ~Translated(pre, ev)
     [] id = "C05" -> ev.op \in C05Ops
